@@ -70,6 +70,10 @@ func runProgram(c *Case, fsName string, r0 uint64) (trace []string, segs string,
 			rec("has %s %v", errStr(err), b)
 		case "count":
 			rec("count %d", db.Count())
+			// the other read-only entry points
+			n, err := db.FileSize()
+			rec("filesize %s positive=%v", errStr(err), n > 0)
+			rec("metrics %v", db.Metrics() != nil)
 		case "items":
 			rec("items %s", observe(db, c.Pool))
 		case "sync":
